@@ -323,7 +323,9 @@ def make_lazy(ctx, rng, nd=None, matrix=False):
         idx = [sr.BlockIndex({rng.choice(gen.POOL[sym]): 1}, dual=rng.random() < 0.5) for _ in range(rng.randint(0, 3))]
         x = gen.make_array(sr, rng, sym, idx, fermionic=True, values=vals, sparsity=0.0, nphase=0, label=rng.randint(1, 99))
     else:
-        x = gen.rand_array(sr, rng, sym, ndim=nd, fermionic=True, maxnd=4, values=vals, maxd=2, nphase=0)
+        x = gen.rand_array(sr, rng, sym, ndim=nd, fermionic=True, maxnd=4, values=vals, maxd=2, nphase=0, many_legs_p=0.04 if nd is None else 0.0)
+        if x.ndim >= 6:
+            ctx.count("feature", "six-or-more-legs")
     # reach a sign table through public ops only
     for _ in range(rng.randint(1, 4)):
         k = rng.randint(0, 4)
